@@ -297,7 +297,17 @@ func scenarioC10(c *hlib.RunCtx) *hlib.Violation {
 				ops = append(ops, op{idx: t.Draw(len(pool)), n: int64(1 + t.Draw(9))})
 			}
 			sampleOps = append(sampleOps, fmt.Sprintf("s%dp%d:%s", sess, i, scripts2str([][]op{ops})[0]))
+			// a process may be started while the others are in the middle of their
+			// work (a restart is not only something that happens between sessions)
+			lateBy := 0
+			if i > 0 && t.Bool(1, 3) {
+				lateBy = 1 + t.Draw(120)
+				s.Probe("late-starter")
+			}
 			s.Spawn(p.p, p.p.Name, func() {
+				for k := 0; k < lateBy; k++ {
+					simrt.Yield("not started yet")
+				}
 				enterAdd()
 				p.f.VerifRotate1()
 				leaveAdd()
